@@ -363,7 +363,7 @@ func litOf(a atrun.Arg) string {
 type stmtOpt struct {
 	where    whereOpt
 	pkChange bool
-	insMode  string // "" | mixed-pk (explicit and NULL/0 key values in one statement: refused) | dup
+	insMode  string // "" | mixed-pk (explicit and NULL/0 key values in one statement: refused) | dup | gen-batch
 	upMode   string // "" | pk-unique (upsert lists a fresh key, collides on the unique index and changes a column of it)
 }
 
@@ -453,9 +453,10 @@ func genDelete(r *hutil.Rng, t *table, o stmtOpt) (string, StmtMeta) {
 
 func genInsert(r *hutil.Rng, t *table, o stmtOpt) (string, StmtMeta) {
 	m := StmtMeta{Kind: "insert", Expect: "ok"}
-	omit := t.auto && o.insMode == "" && r.Chance(1, 3)
+	batch := o.insMode == "gen-batch" // 2-3 rows whose keys the database generates
+	omit := t.auto && ((o.insMode == "" && r.Chance(1, 3)) || (batch && r.Chance(1, 2)))
 	// the key column is listed but every row says NULL or 0: the database generates the keys
-	genAll := t.auto && !omit && o.insMode == "" && r.Chance(1, 4)
+	genAll := t.auto && !omit && ((o.insMode == "" && r.Chance(1, 4)) || batch)
 	var cols []int
 	for c := range t.cols {
 		if t.isPK(c) {
@@ -475,7 +476,7 @@ func genInsert(r *hutil.Rng, t *table, o stmtOpt) (string, StmtMeta) {
 	}
 	m.Cols = cols
 	nrows := 1
-	if o.insMode == "mixed-pk" || r.Chance(2, 5) {
+	if o.insMode == "mixed-pk" || batch || r.Chance(2, 5) {
 		nrows = 2 + r.Intn(2)
 	}
 	m.NRows = nrows
